@@ -200,3 +200,15 @@ func (e *Explorer) Explore() Stats {
 	e.explore(nil, nil, 0)
 	return e.stats
 }
+
+// ReplayOne executes exactly one schedule (choices, then defaults) and checks it.
+func (e *Explorer) ReplayOne(choices []int) Stats {
+	e.stats = Stats{Bound: e.Bound, Complete: true, Outcomes: map[string]int{}}
+	if e.RaceLogPath != "" {
+		if fi, err := os.Stat(e.RaceLogPath); err == nil {
+			e.raceSize = fi.Size()
+		}
+	}
+	e.runOne(choices, nil)
+	return e.stats
+}
